@@ -116,13 +116,24 @@ def main(pid, tier):
         'classes/instances) plus random long behaviours; after the last '
         'step every observable of the property is compared with the '
         '[must, may] interval the spec derives from the declaration '
-        'history; non-trivial = behaviours of >= 3 steps')
+        'history; non-trivial = behaviours of >= 3 steps' + (
+            '; plus (code -> spec) traces recorded from the real code - the '
+            'repository documentation run as doctests and seeded random '
+            'programs with re-based interfaces and declarations made from '
+            'inside change notifications - validated by TraceDeclarations.tla '
+            '(coverage.recorded_traces)' if pid == 'C01' else ''))
     v.assumptions = [
         'specification orders/implied sets equal what current bases define '
         '(C02/C03)', 'bounded class shapes: two-class, chain+sibling, '
         'diamond, mixin; 3 interfaces; <= 3 instances']
     with Build() as build:
         exhaustive = run(pid, tier, v, build)
+        if pid == 'C01':
+            # code -> spec: traces recorded from the real code (random
+            # drivers over larger universes, the repository's own doctests)
+            # validated by TraceDeclarations.tla
+            import trace_declarations
+            trace_declarations.validate(build, v, pid, tier)
     v.cov['exhaustive'] = exhaustive
     return v.finish()
 
